@@ -12,7 +12,7 @@ CHECKS = {
    technique="TLA+ model (TLC exhaustive) + replay of every enumerated case into the real verifier and client"),
 
  "C02": dict(cat="model_checking", design="5 C02",
-   text="TufClient.tla models the root walk of load_root action by action; MC_RootChain lets the server answer every request for a newer root with any key configuration, any signer set, a version one lower/equal/one higher, unparsable, oversized, endless or failing streams, and signs later roles with online keys of any epoch. TLC checks WalkDoublySigned, WalkEndsAtRoot, NeverBelowShipped, RootReqsConsecutive, ShippedMustSelfVerify, TrustedVerified on every state; every TLC path is replayed through RepositoryLoader::load with real keys (Ed25519, ECDSA, RSA) and the recorded trace (requests, served documents, result, versions, datastore) is validated by TLC against the same actions (Trace_Client strict), falling back to the observational restatement of the property for traces the model cannot explain. The repository's own fixtures (tough/tests/data: tuf-reference-impl, consistent-snapshots, rotated-root, dubious-role-names, expired-repository with and without enforcement, safe-target-paths) are loaded twice each by the real client through the recording transport; an abstraction function maps the real RSA / Ed25519 documents to model records (signatures re-verified by the harness), and the traces are validated against TufClient in both modes; a copy with one recorded version changed must be rejected.",
+   text="TufClient.tla models the root walk of load_root action by action; MC_RootChain lets the server answer every request for a newer root with any key configuration, any signer set, a version one lower/equal/one higher, unparsable, oversized, endless or failing streams, and signs later roles with online keys of any epoch. TLC checks WalkDoublySigned, WalkEndsAtRoot, NeverBelowShipped, RootReqsConsecutive, ShippedMustSelfVerify, TrustedVerified on every state; every TLC path is replayed through RepositoryLoader::load with real keys (Ed25519, ECDSA, RSA) and the recorded trace (requests, served documents, result, versions, datastore) is validated by TLC against the same actions (Trace_Client strict), falling back to the observational restatement of the property for traces the model cannot explain. The repository's own fixtures (tough/tests/data: tuf-reference-impl, consistent-snapshots, rotated-root, dubious-role-names, expired-repository with and without enforcement, safe-target-paths) are loaded twice each by the real client through the recording transport; an abstraction function maps the real RSA / Ed25519 documents to model records (signatures re-verified by the harness), and the traces are validated against TufClient in both modes; a copy with one recorded version changed must be rejected. The repository's own test suite (cargo test -p tough -p tuftool, built with the hook) is run with load tracing on: each of the 92 RepositoryLoader::load calls the tests perform, in the test processes and in the tuftool processes they spawn, records what it was given, the bytes it pulled per request, its result and the datastore contents; the records go through the same abstraction function and are validated against TufClient in both modes.",
    note="Trusted: TLC, signer-set abstraction of signatures, harness canonical JSON/signing. Chains up to 4 published versions (check) / 2-3 (replay), 4 key configurations.",
    technique="TLA+ model (TLC exhaustive) + replay of every behaviour into the real client + TLC trace validation"),
  "C03": dict(cat="model_checking", design="5 C03",
@@ -122,7 +122,7 @@ m = {
    "guard": "--cfg tough_verif",
    "enable": "RUSTFLAGS='--cfg tough_verif --check-cfg cfg(tough_verif)' (set in harness/.cargo/config.toml; the harness crate depends on /repo/tough by path, so every check rebuilds the working tree with the hook on)",
    "baseline_off_cmd": "cd /repo && cargo nextest run --workspace --no-fail-fast --tool-config-file pb:/w/lib/nextest.toml --profile pb --test-threads 8 --offline",
-   "source_commits": ["090cad1"],
+   "source_commits": ["090cad1", "d9a1202"],
    "add_only": True
  },
  "engines": [
